@@ -248,8 +248,90 @@ def run_int(name, v):
     return "%s|%s|%s|%s" % ("1" if x.is_valid() else "0", "1" if rep else "0", by, format(x))
 
 
+def collect(abort, root, hexs, source="bytes"):
+    """(events, outcome, exception) of one decode"""
+    t, kw = parse_root(root)
+    data = b"" if hexs == "-" else bytes.fromhex(hexs)
+    if source == "bytes":
+        buf = data
+    elif source == "bytearray":
+        buf = bytearray(data)
+    elif source == "list":
+        buf = list(data)
+    elif source == "iter":
+        buf = iter(data)
+    elif source == "generator":
+        buf = (b for b in data)
+    elif source == "counting":
+        buf = Counting(data)
+    elif source == "memoryview":
+        buf = memoryview(data)
+    else:
+        raise ValueError(source)
+    evs = []
+    try:
+        for ev in Binary.marshal(tpm_type=t, buffer=buf, abort_on_error=abort, **kw):
+            if isinstance(ev, WarningEvent):
+                evs.append(("W", show_err(ev.error), ev))
+            else:
+                evs.append(("E", ev, ev))
+        return evs, "ACC", None
+    except InputStreamBytesDepletedError as e:
+        return evs, "DEP %s" % oz(e.command_code), e
+    except InputStreamSuperfluousBytesError as e:
+        return evs, "SUP %s %s" % (hx(e.bytes_remaining), oz(e.command_code)), e
+    except ConstraintViolatedError as e:
+        return evs, "RAISE %s rem=%s" % (show_err(e), hx(e.bytes_remaining)), e
+    except Exception as e:  # noqa
+        return evs, "CRASH %s" % type(e).__name__, e
+
+
+def run_rt(abort, root, hexs):
+    """C02: re-encoding the events reproduces the input; each primitive chunk is the input slice"""
+    from tpmstream.io.binary.unmarshal import to_bytes
+
+    data = b"" if hexs == "-" else bytes.fromhex(hexs)
+    evs, out, exc = collect(abort, root, hexs)
+    if out != "ACC":
+        return "NA " + out.split(" ")[0]
+    warns = [e for e in evs if e[0] == "W"]
+    if any(not w[1].startswith("V ") for w in warns):
+        return "NA sizewarn"
+    chunks = list(Binary.unmarshal([e[2] for e in evs]))
+    if b"".join(chunks) != data:
+        return "BAD join %s" % b"".join(chunks).hex()
+    off = 0
+    for (k, ev, raw), ch in zip(evs, chunks):
+        if k == "W" or raw.value is ...:
+            if ch != b"":
+                return "BAD structural-event-bytes %s" % (spath(raw.path) if k == "E" else "warning")
+            continue
+        w = raw.type._int_size
+        if len(ch) != w or data[off:off + w] != ch:
+            return "BAD slice %s off=%d chunk=%s" % (spath(raw.path), off, ch.hex())
+        off += w
+    return "OK %d %d" % (len(evs), len(warns))
+
+
+def run_src(abort, root, hexs):
+    """C10: the result does not depend on the kind of iterable"""
+    ref = None
+    for kind in ("bytes", "bytearray", "list", "iter", "generator", "counting", "memoryview"):
+        evs, out, exc = collect(abort, root, hexs, source=kind)
+        sig = ";".join([show_event(e[2], 0) for e in evs] + [out])
+        if ref is None:
+            ref = sig
+        elif sig != ref:
+            return "DIFF %s" % kind
+    return "SAME"
+
+
 def handle(line):
     parts = line.split(" ")
+    if parts[0] == "rt":
+        return run_rt(parts[1] == "1", parts[2], parts[3])
+    if parts[0] == "src":
+        return run_src(parts[1] == "1", parts[2], parts[3])
     if parts[0] == "dec":
         return run_dec(parts[2] == "1", parts[3], parts[4])
     if parts[0] == "obj":
